@@ -36,8 +36,9 @@ theorem WCtx.nonFlush_cache (c : WCtx) (r : WReq) : (c.nonFlush r).cache = c.cac
   unfold WCtx.nonFlush
   split
   · simp [WCtx.toRecv_cache]
-  · split
-    · exact WCtx.toRecv_cache c
+  · dsimp only
+    split
+    · simp [WCtx.toRecv_cache]
     · split
       · exact WCtx.toRecv_cache c
       · rfl
